@@ -51,8 +51,9 @@ const (
 func (rm *RegistrationManager) HandleRegUpdates(ctx context.Context, regChan <-chan interface{}, parentWG *sync.WaitGroup) {
 	defer parentWG.Done()
 	logger := rm.Logger
+	// a missing, zero or (nonsensical) negative ingest_worker_count means the default
 	workers := defaultWorkerCount
-	if rm.IngestWorkerCount != 0 {
+	if rm.IngestWorkerCount > 0 {
 		workers = rm.IngestWorkerCount
 	}
 
